@@ -891,6 +891,19 @@ pub fn run_inproc(seed: u64, shard: u64, cases: u64, mutated_tokens: u64) -> Rep
     for c in 0..cases {
         let mut rng = Rng::derive(seed, "c14-inproc", shard, c);
         let ctx = json!({"seed": seed, "shard": shard, "case": c, "engine": "c14-inproc"});
+        // now and then a page selector that cannot be serialised (outside the judged
+        // domain): what its failed token leaves behind meets the judged tokens that follow
+        if Rng::derive(seed, "c14-poison", shard, c).chance(1, 25) {
+            let sel = crate::types::Poison { a: format!("poison-{c}-{}", "y".repeat((c % 50) as usize)), b: c as u32 };
+            let r = vmon::panics::catch_quiet(std::panic::AssertUnwindSafe(move || {
+                ResultsPage::new(vec![1u32], &Scan::default(), |_item: &u32, _scan: &Scan| sel.clone()).map(|p| p.next_page.is_some())
+            }));
+            match r {
+                Err(p) => rep.violate("C14:issuing-panics", json!({"case": ctx, "selector": "unserialisable", "panic_location": p.location, "panic_message": p.message})),
+                Ok(Ok(tok)) => rep.count(if tok { "unserialisable-selector:token-issued" } else { "unserialisable-selector:no-token" }, 1),
+                Ok(Err(_)) => rep.count("unserialisable-selector:refused", 1),
+            }
+        }
         let f = TYPES[(c % TYPES.len() as u64) as usize];
         f(&mut rep, &mut rng, &ctx, c % every == 0);
         if c % 3 == 0 {
@@ -957,10 +970,22 @@ async fn h_wide(
     Ok(HttpResponseOk(PageEcho { limit, which: which.to_string(), params, next_page: next.next_page }))
 }
 
+/// a page whose selector cannot be serialised (see types::Poison): the request fails,
+/// and must leave nothing behind for the tokens issued afterwards
+#[dropshot::endpoint { method = GET, path = "/c14/poison" }]
+async fn h_poison_page(rqctx: RequestContext<C>) -> Result<HttpResponseOk<PageEcho>, HttpError> {
+    let uid = vmon::api::uid_of(&rqctx);
+    rqctx.context().log.push("H_ENTER", uid, 0, "poison");
+    let sel = crate::types::Poison { a: format!("poison-{uid}-{}", "y".repeat((uid % 50) as usize)), b: uid as u32 };
+    let next = ResultsPage::new(vec![uid], &Scan::default(), |_item: &u64, _s: &Scan| sel.clone())?;
+    Ok(HttpResponseOk(PageEcho { limit: 0, which: "poison".into(), params: String::new(), next_page: next.next_page }))
+}
+
 pub fn build_api() -> Result<ApiDescription<C>, String> {
     let mut api = ApiDescription::new();
     api.register(h_page).map_err(|e| format!("register: {e}"))?;
     api.register(h_wide).map_err(|e| format!("register: {e}"))?;
+    api.register(h_poison_page).map_err(|e| format!("register: {e}"))?;
     Ok(api)
 }
 
@@ -1076,6 +1101,13 @@ fn live_client(rep: &mut Report, addr: std::net::SocketAddr, seed: u64, shard: u
     for c in first..first + cases {
         let mut rng = Rng::derive(seed, "c14-live", shard, c);
         let ctx = json!({"seed": seed, "shard": shard, "case": c, "engine": "c14-live"});
+        if Rng::derive(seed, "c14-poison", shard, c).chance(1, 20) {
+            // not judged: a request whose page selector cannot be serialised
+            let pu = vmon::evlog::next_uid();
+            if let Some(r) = exchange(rep, &mut conn, addr, "/c14/poison", pu) {
+                rep.count(&format!("unserialisable-selector:answered-{}", r.status), 1);
+            }
+        }
         if rng.chance(1, 16) {
             wide_sequence(rep, &mut conn, addr, seed, &mut rng, &ctx, &mut out);
             continue;
